@@ -387,6 +387,9 @@ def _pipeline_correspondence(chk, drv, tbl, quick):
             impl_tree = tyconv.canon(tyconv.ty_to_tree(impl, tbl))
         except tyconv.Unrepresentable:
             continue
+        except Exception as e:
+            chk.fail("inference-raised", {"k": k, "values": sexp.dumps(ds)[:600], "error": repr(e)[:300]})
+            continue
         reqs.append(("inferRewrite", str(k), ds))
         meta.append(({"k": k, "values": sexp.dumps(ds)[:600]}, impl_tree))
     try:
